@@ -1,11 +1,11 @@
 CONSTANTS
   Threads = {1, 2}
-  Layouts <- LayoutsTwoA
+  Layouts <- LayoutsLiveQ
   Muts <- MutsNone
   Sigs = {"a", "b"}
   BadSigs = {"k"}
   MaxRaise = 1
-  RaiseOn = {0, 1}
+  RaiseOn = {1}
   SpuriousPolls = FALSE
   FixLeak = FALSE
   MaxNL = 3
